@@ -697,9 +697,25 @@ def run_check(tier, seed):
         big_run = sorted(set(big_run))
         t1 = Timer()
         ans = {}
-        a1 = run_open(open_a, [cases[i]['path'] for i in small], wd, 'mal', ASAN_ENV, secs=10, fork=1)[0]
-        for i, a in zip(small, a1):
-            ans[i] = a
+        # in batches: a tree on which (nearly) every open ends in a new sanitizer report is decided after the
+        # first batches (each report costs ~0.3 s of symbolisation), the rest of the stream is then not run
+        order = rng.shuffle(small)
+        stopped = None
+        known_sigs = set(k['sig'] for k in V.known)
+        unknown = 0
+        for b0 in range(0, len(order), 400):
+            part = order[b0:b0 + 400]
+            a1 = run_open(open_a, [cases[i]['path'] for i in part], wd, 'mal', ASAN_ENV, secs=10, fork=1)[0]
+            for i, a in zip(part, a1):
+                ans[i] = a
+                f = judge(cases[i], a, model[i])[1]
+                if f and f[0] not in known_sigs:
+                    unknown += 1
+            if unknown >= 60 and b0 + 400 < len(order):
+                stopped = 'stream stopped after %d of %d opens: %d failing inputs with signatures that are not known findings' % (b0 + len(part), len(order), unknown)
+                log('[S4a] ' + stopped)
+                break
+        small = sorted(ans)
         a2 = run_open(open_a, [cases[i]['path'] for i in big_run], wd, 'big', ASAN_ENV, secs=20, fork=1)[0] if big_run else []
         for i, a in zip(big_run, a2):
             ans[i] = a
@@ -721,6 +737,8 @@ def run_check(tier, seed):
                 else:
                     fails.append((sig, text, rep))
         dist['model:BIG-not-run'] = len(big) - len(big_run)
+        if stopped:
+            V.cov['stream_stopped_early'] = stopped
         nmal = len(ans)
         # thorough: the clean inputs again on 2 ranks (no fork: hdr_fetch's broadcast path) and on the plain build
         n2 = 0
